@@ -247,7 +247,7 @@ pub fn drive(args: &[String]) -> i32 {
                 if let Some(ti) = (0..inp.toks.len() - 1).find(|ti| inp.toks[*ti].class == cl && inp.toks[*ti + 1].class == cr) {
                     let text = relayout(&inp.text, &inp.toks, &[(ti, form_text(form))]);
                     let obs = observe(&text);
-                    evs.push(json!({"ev": "relayout", "mode": "single boundary", "form": form, "cl": cl, "cr": cr, "input": inp.name,
+                    evs.push(json!({"ev": "relayout", "mode": "single boundary", "form": form, "cl": cl, "cr": cr, "input": inp.name, "encctl": inp.text.contains("ENCODING-CONTROL"),
                                     "base_status": inp.base.0, "status": obs.0, "same": obs == inp.base,
                                     "asn": format!("...{}...  ->  ...{}...", snippet(&inp.text, &inp.toks, ti),
                                                    relayout(&inp.text, &inp.toks, &[(ti, form_text(form))]).get(inp.toks[ti.saturating_sub(2)].start..).map(|x| x.chars().take(90).collect::<String>()).unwrap_or_default().replace('\n', "\\n"))}));
@@ -258,7 +258,7 @@ pub fn drive(args: &[String]) -> i32 {
                 }
             }
             if found == 0 {
-                evs.push(json!({"ev": "relayout", "mode": "no such boundary", "form": form, "cl": cl, "cr": cr, "input": "",
+                evs.push(json!({"ev": "relayout", "mode": "no such boundary", "form": form, "cl": cl, "cr": cr, "input": "", "encctl": false,
                                 "base_status": "", "status": "", "same": true, "asn": ""}));
             }
         }
@@ -276,7 +276,7 @@ pub fn drive(args: &[String]) -> i32 {
             for f in &forms {
                 let gaps: Vec<(usize, &str)> = (0..inp.toks.len() - 1).map(|i| (i, form_text(f))).collect();
                 let obs = observe(&relayout(&inp.text, &inp.toks, &gaps));
-                evs.push(json!({"ev": "relayout", "mode": "every boundary", "form": f, "cl": "*", "cr": "*", "input": inp.name,
+                evs.push(json!({"ev": "relayout", "mode": "every boundary", "form": f, "cl": "*", "cr": "*", "input": inp.name, "encctl": inp.text.contains("ENCODING-CONTROL"),
                                 "base_status": inp.base.0, "status": obs.0, "same": obs == inp.base, "asn": inp.text.chars().take(300).collect::<String>()}));
             }
             for r in 0..4 {
@@ -288,7 +288,7 @@ pub fn drive(args: &[String]) -> i32 {
                 }
                 let text = relayout(&inp.text, &inp.toks, &gaps);
                 let obs = observe(&text);
-                evs.push(json!({"ev": "relayout", "mode": format!("random subset {r}"), "form": "MIXED", "cl": "*", "cr": "*", "input": inp.name,
+                evs.push(json!({"ev": "relayout", "mode": format!("random subset {r}"), "form": "MIXED", "cl": "*", "cr": "*", "input": inp.name, "encctl": inp.text.contains("ENCODING-CONTROL"),
                                 "base_status": inp.base.0, "status": obs.0, "same": obs == inp.base,
                                 "asn": if obs == inp.base { String::new() } else { text }}));
             }
